@@ -5,7 +5,10 @@ from checks import codec_randacc as ra
 from vlib.core import ROOT, run_lines
 
 MODULES = ["TLVerif.Props.C18"]
-THEOREMS = ["TLVerif.Props.C18." + t for t in []]
+THEOREMS = ["TLVerif.Props.C18." + t for t in [
+    "fill_terminates", "fill_valid", "fill_functional", "saturated_increase_leaks",
+    "fill_diverges_nonproductive", "fill_diverges_union", "fill_diverges_leak", "loop_never_fills", "peano_never_fills", "leak_never_fills",
+    "weights_cumulative", "depth_range", "limit_pow2", "letters_count", "increase_sites", "newRG_depth"]]
 SOURCES = ["TLVerif.Codec.Random", "TLVerif.Codec.RandomLemmas", "TLVerif.Codec.RandomTerm", "TLVerif.Codec.Ops.Rand"]
 
 # known findings, identified by call site; the predicate that attributes a diverging run to one of them is the exact
